@@ -35,6 +35,7 @@ type scenario struct {
 	Tags        map[string]bool // features present, for the coverage statistics
 	NoReplay    bool            // Go map iteration order can show: judged by the set-level checkers only
 	Pre         *scenario       // an earlier request served by the SAME actor value (its own configuration; not recorded)
+	ClockDelta  int64           // of a Pre request: its clock reading relative to the recorded request's
 }
 
 type runResult struct {
@@ -166,7 +167,9 @@ func runScenario(sc *scenario) (res runResult) {
 		saved, savedFaults := cfg, r.faults
 		cfg = sc.Pre.Cfg
 		r.faults = nil
+		w.Clock += sc.Pre.ClockDelta
 		exec(sc.Pre, &recWriter{r: r, h: http.Header{}, digestIdx: -1})
+		w.Clock -= sc.Pre.ClockDelta
 		cfg = saved
 		r.faults = savedFaults
 		r.trace = nil
